@@ -77,6 +77,45 @@ def gen_prefs(rng, single=False):
     return pf
 
 
+def ends_escaped_blank(t):
+    """t ends with a blank that is escaped by an odd run of backslashes"""
+    if not t.endswith(' '):
+        return False
+    body = t[:-1]
+    return (len(body) - len(body.rstrip('\\'))) % 2 == 1
+
+
+def split_block(tokenizer, text):
+    """independent splitter of a declaration block text with the real tokenizer: top-level comments, and per
+    declaration (IDENT … up to `;`) the texts before the first `:`, between it and the first `!`, and from `!` on.
+    Returns the words of the driver's `psrc` reply (`D:name:value:prio`, `M:text`) before encoding."""
+    toks = [(t[0], t[1]) for t in tokenizer.tokenize(text)] if text else []
+    out, cur = [], None
+    for typ, val in toks:
+        if cur is None:
+            if typ == 'COMMENT':
+                out.append(('M', val))
+            elif typ == 'S' or (typ == 'CHAR' and val == ';'):
+                continue
+            else:
+                cur = {'f': 0, 'parts': ['', '', '']}
+                cur['parts'][0] += val
+            continue
+        if typ == 'CHAR' and val == ';':
+            out.append(('D',) + tuple(cur['parts']))
+            cur = None
+        elif cur['f'] == 0 and typ == 'CHAR' and val == ':':
+            cur['f'] = 1
+        elif cur['f'] == 1 and typ == 'CHAR' and val == '!':
+            cur['f'] = 2
+            cur['parts'][2] += val
+        else:
+            cur['parts'][cur['f']] += val
+    if cur is not None:
+        out.append(('D',) + tuple(cur['parts']))
+    return out
+
+
 def strip_ws(t):
     return ''.join(c for c in t if not c.isspace())
 
